@@ -16,10 +16,83 @@ for c in CONTRACTS:
         c.ensures = c.ensures + [("snapshot-consumed", f"{EN}._prev_state is None")]
     if c.target.endswith("PauseEngineCommand._run") and not any("pause-captures" in str(e) for e in c.ensures):
         pass
+
+
+# ---- the snapshot itself: Engine._apply_safe_state records EVERY output it is about to change, whatever its current value ---------------
+import z3                                          # noqa: E402
+from pyvc.spec import Contract, LoopSpec          # noqa: E402
+from pyvc.smt import Val, RID, IV, mk_int          # noqa: E402
+from pyvc.state import SV                          # noqa: E402
+from pyvc.repo import Ty                           # noqa: E402
+TAG_OF = z3.Function("TAG_OF_REGISTER", Val, Val)       # self.uod.tags[r.name]
+RO = z3.Function("READONLY_VALUE_OF", Val, Val)         # tag.as_readonly(): the tag's value in effect now
+
+
+def tag_of(ctx, node):
+    """self.uod.tags[r.name]: the tag of that register (lookup by name, assumed)"""
+    r = ctx.local("r")
+    out = SV(TAG_OF(r.term), Ty("Tag"))
+    ctx.ex.assume_type(out.term, out.ty, ctx.fr)
+    return out
+
+
+def as_readonly(ctx, args, kwargs):
+    """tag.as_readonly(): snapshot of the tag's current value"""
+    t = ctx.ex.ev(ctx.node.func.value, ctx.fr)
+    return SV(RO(t.term), None)
+
+
+def set_safe(ctx, args, kwargs):
+    """tag.set_value(safe_value, time): counted in the ghost field `ghost_safe_sets`"""
+    me = ctx.local("self")
+    n = IV(ctx.st.read("ghost_safe_sets", RID(me.term)))
+    ctx.st.write("ghost_safe_sets", RID(me.term), Val.VInt(n + 1))
+    return ctx.none()
+
+
+def collection(ctx, args, kwargs):
+    """TagValueCollection(current_values): the snapshot handed to Pause. Obligation: it holds one entry per register that has a safe
+    value, position by position the value that register's tag had when it was visited, and every one of those tags was set"""
+    st = ctx.st
+    cur, regs = args[0], ctx.local("registers")
+    n = ctx.list_len(regs)
+    k = z3.Int(st.fresh_name("k"))
+    from pyvc import heapops as H
+    ok = z3.And(ctx.list_len(cur) == n,
+                z3.ForAll([k], z3.Implies(z3.And(0 <= k, k < n),
+                                          H.list_get(st, RID(cur.term), k) == RO(TAG_OF(H.list_get(st, RID(regs.term), k))))))
+    ctx.check("the-snapshot-holds-the-current-value-of-every-output-with-a-safe-value", ok, "call-site")
+    ctx.check("every-output-with-a-safe-value-is-set-to-it", IV(st.read("ghost_safe_sets", RID(ctx.local("self").term))) == n, "call-site")
+    return ctx.fresh("snapshot", "TagValueCollection")
+
+
+as_readonly.modifies = []
+set_safe.modifies = ["ghost_safe_sets"]
+collection.modifies = []
+safe_state = Contract(
+    target="openpectus.engine.engine:Engine._apply_safe_state", raises=None,
+    types={"self": "Engine", "Engine.ghost_safe_sets": "int", "registers": "list[Register]", "current_values": "list", "r": "Register",
+           "Register.direction": "RegisterDirection", "Register._options": "dict[str, Any]"},
+    requires=["self.ghost_safe_sets == 0"],
+    calls={"tag.as_readonly": as_readonly, "tag.set_value": set_safe, "TagValueCollection": collection,
+           "hwl.registers.values": lambda ctx, a, k: ctx.fresh("all_registers", "list[Register]")},
+    options={"lenient": True, "protected_prefixes": (), "subscript_handlers": {"self.uod.tags[r.name]": tag_of}},
+    loops={"for r in registers": LoopSpec(
+        invariant=["len(current_values) == idx", "self.ghost_safe_sets == idx",
+                   "all(current_values[j] == RO_OF(registers[j]) for j in range(idx))"],
+        frame={"$len": ["current_values"], "$items": ["current_values"], "ghost_safe_sets": ["self"]})})
+
+
+def RO_OF(ctx, reg):
+    return SV(RO(TAG_OF(reg.term)), None)
+
+
+SPEC_FUNCS = {"RO_OF": RO_OF}
+CONTRACTS = CONTRACTS + [safe_state]
 TARGETS = [c.key for c in CONTRACTS]
 TRUSTED = c06.TRUSTED + ["Engine._apply_safe_state returns the output values in effect at the call (ghost-stamped with the pause and run sequence "
-                         "numbers); Engine._apply_state applies exactly the given collection (both engine methods contain loops over hardware "
-                         "registers / tags and are not themselves under contract)"]
+                         "numbers) - that the snapshot is complete is now an obligation on Engine._apply_safe_state itself (loop invariant); "
+                         "Engine._apply_state applies exactly the given collection (loop over tags, not under contract)"]
 CLAUSES = {"restores exactly the values from immediately before the most recent Pause of the same run": "call-site obligation on _apply_state in Unpause + invariant K",
            "never values of an earlier run or of an earlier, already-undone pause": "K preserved by Stop / Restart / Start / Pause / Unpause (all segments)"}
 EXPLANATION = "Ghost pause/run sequence numbers on the snapshot object; invariant K over all run-state commands; one repo defect (snapshot survived Stop/Restart) fixed."
@@ -27,6 +100,9 @@ EXPLANATION = "Ghost pause/run sequence numbers on the snapshot object; invarian
 
 def replay(obligation, witness):
     import contracts.c09_native as n
+    if "_apply_safe_state" in obligation:
+        r = n.scenario_output_already_safe_before_the_pause()
+        return {"confirmed": r["violated"], **r}
     r = n.scenario_stale_snapshot_across_runs()
     return {"confirmed": r["violated"], **r}
 
@@ -37,5 +113,11 @@ def _nat():
     return {"ok": not r["violated"], "observation": r}
 
 
-NATIVE = [("native:stale-snapshot-across-runs", _nat)]
+def _nat2():
+    import contracts.c09_native as n
+    r = n.scenario_output_already_safe_before_the_pause()
+    return {"ok": not r["violated"], "observation": r}
+
+
+NATIVE = [("native:stale-snapshot-across-runs", _nat), ("native:output-already-safe-before-the-pause-is-restored", _nat2)]
 REPLAY_WITHOUT_WITNESS = True
